@@ -84,10 +84,12 @@ def fk(
                 si=si,
                 dx=dx,
                 vbounds=vbounds,
+                btype=btype,
                 ntr_pad=ntr_pad,
                 ntr_tap=ntr_tap,
                 lagc=lagc,
                 collection=None,
+                kfilt=kfilt,
             )
         return xout
 
